@@ -40,6 +40,7 @@ ASSUMPTIONS = [
     "'uses its group address' = Device.has_group_address(address) of the registered device",
     "the error for duplicate add / unknown remove is ValueError (Devices.async_add / async_remove)",
     "telegrams addressed to an individual address reach no device",
+    "additions and removals happen between telegrams (the property's 'sequence of device additions and removals'); a registry change made from inside a device callback while one telegram is being dispatched is not in the domain - 'registered' is then ambiguous and the pinned tree itself skips the next device when a device removes itself mid-dispatch",
 ]
 
 POOL = ["1/0/1", "1/0/2", "1/0/3", "7/7/7", "i-a", "i-b"]
